@@ -186,7 +186,7 @@ type parser struct {
 }
 
 func (p *parser) peek() ctok { return p.toks[p.p] }
-func (p *parser) next() ctok  { t := p.toks[p.p]; p.p++; return t }
+func (p *parser) next() ctok { t := p.toks[p.p]; p.p++; return t }
 func (p *parser) isOp(s string) bool {
 	t := p.peek()
 	return t.k == "op" && t.s == s
@@ -406,16 +406,16 @@ type Clause struct {
 
 type LoopSpec struct {
 	StepAsserts []*Clause // checkpoints at the back edge (checked, then assumed, before the invariants are checked)
-	ApplyWhen []*Expr // optional guard of each application (nil: unconditional)
-	Applies  []*Expr // lemma applications at the loop head: premise proved as an obligation, conclusion assumed
-	Lets     []LetDef // ghost snapshots taken at the loop head (after the invariants are assumed)
-	Progress *Expr
-	Exit []*Clause
-	ExitUses []*Expr
-	Uses []*Expr
-	Inv  []*Clause
-	Dec  *Expr
-	Mods []string
+	ApplyWhen   []*Expr   // optional guard of each application (nil: unconditional)
+	Applies     []*Expr   // lemma applications at the loop head: premise proved as an obligation, conclusion assumed
+	Lets        []LetDef  // ghost snapshots taken at the loop head (after the invariants are assumed)
+	Progress    *Expr
+	Exit        []*Clause
+	ExitUses    []*Expr
+	Uses        []*Expr
+	Inv         []*Clause
+	Dec         *Expr
+	Mods        []string
 }
 
 type LetDef struct {
@@ -424,62 +424,62 @@ type LetDef struct {
 }
 
 type Contract struct {
-	Key      string // function key as written
-	Pkg      string // package path the block belongs to ("" = fully-qualified key)
-	File     string
-	Lets     []LetDef
-	Requires []*Clause
-	Ensures  []*Clause
-	Modifies []string // raw target strings
-	HasMod   bool
-	Loops    map[int]*LoopSpec
-	Pure     bool
-	Trusted  bool // contract assumed, body not verified
-	ViewName string // set for `view NAME of FUNC` contracts
-	ViewOf   string // full key of the function the view belongs to
-	Inline   bool
-	External bool // from externals.spec: assumed
-	Emits    []*Clause
-	NoBody   bool
-	Props    map[string]bool
-	Fresh    []string // result components declared fresh
-	Decreases *Expr
-	Notes    []string
-	Uses     []*Expr
-	Implements []string
-	Measure *Expr // termination measure of a recursive function: must decrease (and stay >= 0) at every call to a function that also declares one
-	SplitReturns bool // check the postconditions separately at every return statement (simpler terms than the merged state)
-	ExactEmits bool // the declared emits are exactly the function's own activation trace (checked)
-	Asserts    []*MidAssert
+	Key          string // function key as written
+	Pkg          string // package path the block belongs to ("" = fully-qualified key)
+	File         string
+	Lets         []LetDef
+	Requires     []*Clause
+	Ensures      []*Clause
+	Modifies     []string // raw target strings
+	HasMod       bool
+	Loops        map[int]*LoopSpec
+	Pure         bool
+	Trusted      bool   // contract assumed, body not verified
+	ViewName     string // set for `view NAME of FUNC` contracts
+	ViewOf       string // full key of the function the view belongs to
+	Inline       bool
+	External     bool // from externals.spec: assumed
+	Emits        []*Clause
+	NoBody       bool
+	Props        map[string]bool
+	Fresh        []string // result components declared fresh
+	Decreases    *Expr
+	Notes        []string
+	Uses         []*Expr
+	Implements   []string
+	Measure      *Expr // termination measure of a recursive function: must decrease (and stay >= 0) at every call to a function that also declares one
+	SplitReturns bool  // check the postconditions separately at every return statement (simpler terms than the merged state)
+	ExactEmits   bool  // the declared emits are exactly the function's own activation trace (checked)
+	Asserts      []*MidAssert
 }
 
 type MidAssert struct {
-	Callee string // when set, N is the occurrence of calls to this callee
-	N  int
-	Cl *Clause
-	Before bool // `before Callee#k ...`: evaluated just before the call
-	CheckOnly bool // `after .. check`: proved but not assumed afterwards
-	Apply *Expr // lemma application instead of an assertion: premise proved, conclusion assumed
-	When  *Expr
+	Callee    string // when set, N is the occurrence of calls to this callee
+	N         int
+	Cl        *Clause
+	Before    bool  // `before Callee#k ...`: evaluated just before the call
+	CheckOnly bool  // `after .. check`: proved but not assumed afterwards
+	Apply     *Expr // lemma application instead of an assertion: premise proved, conclusion assumed
+	When      *Expr
 }
 
 type SpecFunc struct {
-	Name   string
-	Params []string
-	PTypes []string
-	Ret    string
-	Body   *Expr
+	Name     string
+	Params   []string
+	PTypes   []string
+	Ret      string
+	Body     *Expr
 	Uninterp bool
-	ReadsM bool // ghost function of the raw memory (M and the slice-header shadows) as well
+	ReadsM   bool // ghost function of the raw memory (M and the slice-header shadows) as well
 }
 
 type Lemma struct {
 	Params []string
 	PTypes []string
-	Name string
-	Tags []string
-	E    *Expr
-	Text string
+	Name   string
+	Tags   []string
+	E      *Expr
+	Text   string
 }
 
 type TypeAttr struct {
@@ -494,8 +494,8 @@ type AttrDef struct {
 }
 
 type GlobalFact struct {
-	Pkg string
-	E   *Expr
+	Pkg  string
+	E    *Expr
 	Text string
 }
 
@@ -507,7 +507,7 @@ type Specs struct {
 	Globals   []*GlobalFact
 	Ifaces    map[string]*Contract // "pkg.Iface.Method"
 	Axioms    map[string]*SpecFunc
-	Views     []*Contract // implementation-level contracts (view NAME of FUNC)
+	Views     []*Contract       // implementation-level contracts (view NAME of FUNC)
 	Guards    map[string]string // pkg.mapVar -> pkg.mutexVar
 }
 
